@@ -28,7 +28,7 @@ from typing import Any
 import numpy as np
 
 from ptverif import export, runprog, tlc
-from ptverif.common import NCPU, MachineryError, Run, seed
+from ptverif.common import NCPU, MachineryError, Run, robust_map, seed
 
 PROP = "C16"
 PARAMS = ["n", "m", "k"]
@@ -46,12 +46,35 @@ def form_to_pt(f: tuple[int, ...], params: list[Any]) -> Any:
     return expr
 
 
+def presentation(f: tuple[int, ...], params: list[Any], how: str) -> Any:
+    """The same affine function, written differently: a parameter that cancels
+    (.. + p - p), a coefficient split ((c+1)*p - p), summands in reverse order."""
+    if how == "canonical":
+        return form_to_pt(f, params)
+    if how == "cancel":
+        k = next((i for i, c in enumerate(f[1:]) if c == 0), len(f) - 2)
+        return (form_to_pt(f, params) + params[k]) - params[k]
+    if how == "split":
+        expr: Any = int(f[0])
+        for c, p in zip(f[1:], params):
+            expr = (expr + (int(c) + 1) * p) - p
+        return expr
+    if how == "reversed":
+        expr = 0
+        for c, p in reversed(list(zip(f[1:], params))):
+            if c:
+                expr = int(c) * p + expr
+        return expr + int(f[0])
+    raise ValueError(how)
+
+
 def decide(pair: tuple) -> dict:
     import pytato as pt
     from pytato.utils import are_shape_components_equal
-    pid, f, g = pair
+    pid, f, g = pair[:3]
+    how = pair[3] if len(pair) > 3 else ("canonical", "canonical")
     params = [pt.make_size_param(nm) for nm in PARAMS[:len(f) - 1]]
-    a, b = form_to_pt(f, params), form_to_pt(g, params)
+    a, b = presentation(f, params, how[0]), presentation(g, params, how[1])
     rec: dict[str, Any] = {"id": pid, "a": list(f), "b": list(g)}
     try:
         rec["equal"] = bool(are_shape_components_equal(a, b))
@@ -109,6 +132,14 @@ def pairs(tier: str) -> tuple[list, bool]:
             k = int(rng.integers(4))
             g[k] = max(-3, min(3, g[k] + int(rng.choice([-1, 1]))))
         out.append((f"p3/{f}/{tuple(g)}", f, tuple(g)))
+    # the same pairs in other syntactic presentations (the decision must not depend
+    # on how a form is written)
+    hows = ["cancel", "split", "reversed"]
+    base = [p for p in out if p[0].startswith(("p2n", "p2e", "p3"))]
+    base += [p for p in out if p[0].startswith("p2/")][:(400 if tier == "quick" else 20000)]
+    for q, (pid, f, g) in enumerate(base):
+        h = (hows[q % 3], "canonical") if q % 2 else ("canonical", hows[q % 3])
+        out.append((f"{pid}~{h[0]}-{h[1]}", f, g, h))
     seen = set()
     out = [p for p in out if not (p[0] in seen or seen.add(p[0]))]
     return out, tier == "thorough"
@@ -318,7 +349,7 @@ def main(tier: str, only: list[dict] | None = None) -> int:
         if v != "ok":
             run.violation(r["id"], f"forms {r['a']} and {r['b']}: wrong decision ({v}); "
                                    f"recorded {r}", record={"pair": [r["id"], r["a"], r["b"]]},
-                          sig={"clause": v})
+                          sig={"clause": v, "presentation": r["id"].partition("~")[2]})
     # G: programs over symbolic shapes
     sizes = [1, 2, 3, 5] if tier == "quick" else [1, 2, 3, 4, 5, 6]
     specs = [{"name": t["name"], "sizes": sizes if len(t["params"]) == 1 else
@@ -327,8 +358,9 @@ def main(tier: str, only: list[dict] | None = None) -> int:
         specs = [s for s in specs if s["name"] == only[0]["template"]]
     elif only is not None:
         specs = []
-    with mp.Pool(min(NCPU, max(1, len(specs)))) as pool:
-        tres = [r for chunk in pool.map(_run_templates, [[s] for s in specs]) for r in chunk]
+    tres = robust_map(_run_templates, specs, chunk=1, crashed=lambda sp, why: {
+        "name": sp["name"], "records": [], "runs": 0,
+        "problems": [{"clause": "execution_crashed", "what": why}]})
     shape_records = [r for t in tres for r in t["records"]]
     sval = tlc.validate_records("PtCheck", "PtCheck.cfg", shape_records, timeout=900) \
         if shape_records else None
